@@ -42,7 +42,13 @@ EXPLANATION = (
     'method that hands self.<setting> to assigns_to_counts stores no '
     'data-derived value into that setting (a second fit counts with the '
     'constructor settings); an early exit of the helper with an empty pair '
-    'list is taken only when len(row) <= lag (linear decision over n, L). '
+    'list is taken only when len(row) <= lag (linear decision over n, L); '
+    '(D7) the functions on the counting path (and the methods of msm.py that '
+    'count) keep no state that outlives a call: no memoising decorator, no '
+    'module-level object / mutable default written at run time, except a '
+    'table whose key determines the entry - a key that contains a parameter '
+    'only as id(<parameter>) while the entry is computed from its contents '
+    'is a violation. '
     'Additivity/permutation invariance as values follow but are not '
     're-derived.')
 
@@ -765,6 +771,30 @@ _NARROW = ('np.int8', 'np.int16', 'np.int32', 'np.uint8', 'np.uint16', 'np.uint3
            "'int8'", "'int16'", "'int32'", "'uint8'", "'uint16'", "'uint32'", "'bool'", 'np.float16', 'np.float32')
 
 
+def _module_consts(mod, fn):
+    """{name: literal} for the module-level names that are bound exactly once,
+    to a number literal, are never rebound or changed by a function of the
+    module and are not shadowed by a local of `fn`: named constants, read
+    as the literal they stand for."""
+    from ..core import walk_local
+    seen = {}
+    for st in getattr(mod.tree, 'body', []):
+        for n in ast.walk(st):
+            if isinstance(n, ast.Name) and isinstance(n.ctx, (ast.Store, ast.Del)) and not mod.enclosing_function(n):
+                seen[n.id] = seen.get(n.id, 0) + 1
+    local = set(params(fn)) | {n.id for n in walk_local(fn) if isinstance(n, ast.Name) and isinstance(n.ctx, (ast.Store, ast.Del))}
+    shared = {x for f in mod.functions.values() for n in ast.walk(f) if isinstance(n, (ast.Global, ast.Nonlocal)) for x in n.names}
+    out = {}
+    for st in getattr(mod.tree, 'body', []):
+        if isinstance(st, ast.Assign) and len(st.targets) == 1 and isinstance(st.targets[0], ast.Name):
+            nm = st.targets[0].id
+            v = canon(st.value)
+            if seen.get(nm) == 1 and nm not in local and nm not in shared and isinstance(v, ast.Constant) \
+                    and type(v.value) in (int, float):
+                out[nm] = v
+    return out
+
+
 class _Counts:
     def __init__(self, ck):
         self.ck = ck
@@ -775,6 +805,7 @@ class _Counts:
         self.ps = params(fn)
         self.hps = params(mod.func(HELPER))
         self.flag_truths = set()
+        self.consts = _module_consts(mod, fn)
 
     # -- D1 ---------------------------------------------------------------
     def lag_guard(self, helper_calls):
@@ -940,7 +971,7 @@ class _Counts:
         """Verdict for the per-row expression `elt` (a function of the row
         variable `t`) in the role "row without its -1 padding":
         'masked' | ('near', verdict, detail, construct) | 'far'."""
-        e = canon(elt)
+        e = canon(_subst(elt, self.consts))
         if isinstance(e, ast.IfExp):
             return 'far'
         p = _slice_parts(e)
@@ -1071,7 +1102,7 @@ class _Counts:
         inline = False
         row = ax if isinstance(ax, ast.Name) else None
         if row is None:
-            m = match_any(_MASKS, fi.expand(ax))
+            m = match_any(_MASKS, canon(_subst(fi.expand(ax), self.consts)))
             if m is not None and isinstance(m['_V'], ast.Name):
                 cand = [x for x in walk_expr(ax) if isinstance(x, ast.Name) and x.id == m['_V'].id]
                 if cand:
@@ -1947,11 +1978,484 @@ def d5_settings(ck):
     ck.floor(rule, n, 1, 'settings of an object handed to %s in %s' % (COUNTS, MSM_PY))
 
 
+# ---------------------------------------------------------------------------
+# D7: the count matrix is a function of the arguments of THIS call (no state that outlives a call)
+#
+# generic helpers (candidates for promotion to sa/effects.py / sa/rules/extra.py)
+
+_MEMO_DECORATORS = ('lru_cache', 'cache', 'cached', 'memoize', 'memoized', 'memoise', 'memoised')
+_MUTATORS = {'append', 'extend', 'insert', 'pop', 'popitem', 'remove', 'sort', 'reverse', 'clear', 'update', 'fill',
+             'setdefault', 'add', 'discard', 'resize', 'put', 'itemset', 'setflags', 'partition', 'appendleft',
+             'extendleft', 'move_to_end', 'subtract', 'setfield', 'byteswap'}
+
+
+def _module_bound(mod):
+    """Names bound by statements at module level (assignments, defs,
+    classes; module-level if/try/with/for bodies included; imports not)."""
+    out = set()
+    stack = list(getattr(mod.tree, 'body', []))
+    while stack:
+        n = stack.pop()
+        if isinstance(n, (ast.FunctionDef, ast.AsyncFunctionDef, ast.ClassDef)):
+            out.add(n.name)
+        elif isinstance(n, ast.Assign):
+            for t in n.targets:
+                out.update(x.id for x in ast.walk(t) if isinstance(x, ast.Name) and isinstance(x.ctx, ast.Store))
+        elif isinstance(n, (ast.AnnAssign, ast.AugAssign)):
+            out.update(x.id for x in ast.walk(n.target) if isinstance(x, ast.Name) and isinstance(x.ctx, ast.Store))
+        elif isinstance(n, (ast.If, ast.Try, ast.With, ast.For, ast.While)):
+            for f in ('body', 'orelse', 'finalbody'):
+                stack += getattr(n, f, [])
+            for h in getattr(n, 'handlers', []):
+                stack += h.body
+    return out
+
+
+def _fn_scope(fn):
+    """(names local to `fn`, names it declares global/nonlocal)."""
+    from ..core import walk_local
+    outer = {x for n in walk_local(fn) if isinstance(n, (ast.Global, ast.Nonlocal)) for x in n.names}
+    loc = set(params(fn))
+    for n in walk_local(fn):
+        if isinstance(n, ast.Name) and isinstance(n.ctx, (ast.Store, ast.Del)):
+            loc.add(n.id)
+        elif isinstance(n, (ast.FunctionDef, ast.AsyncFunctionDef, ast.ClassDef)) and n is not fn:
+            loc.add(n.name)
+        elif isinstance(n, (ast.Import, ast.ImportFrom)):
+            loc.update((a.asname or a.name).split('.')[0] for a in n.names)
+    return loc - outer, outer
+
+
+def _root(e):
+    while isinstance(e, (ast.Attribute, ast.Subscript, ast.Starred)):
+        e = e.value
+    return e if isinstance(e, ast.Name) else None
+
+
+def _writes_in(fn):
+    """[(node, name, kind)]: what the body of `fn` (nested defs excluded)
+    writes: kind 'rebind' (name = ..), 'store' (name[..] = / name.a = /
+    del name[..], also augmented), 'method' (name.append(..) and the other
+    in-place methods), 'out' (out=name)."""
+    from ..core import walk_local
+    out = []
+    for n in walk_local(fn):
+        if isinstance(n, ast.Name) and isinstance(n.ctx, (ast.Store, ast.Del)):
+            out.append((n, n.id, 'rebind'))
+        elif isinstance(n, (ast.Subscript, ast.Attribute)) and isinstance(n.ctx, (ast.Store, ast.Del)):
+            b = _root(n)
+            if b is not None:
+                out.append((n, b.id, 'store'))
+        elif isinstance(n, ast.Call):
+            if isinstance(n.func, ast.Attribute) and n.func.attr in _MUTATORS:
+                b = _root(n.func.value)
+                if b is not None:
+                    out.append((n, b.id, 'method'))
+            for k in n.keywords:
+                if k.arg == 'out':
+                    for v in (k.value.elts if isinstance(k.value, (ast.Tuple, ast.List)) else [k.value]):
+                        b = _root(v)
+                        if b is not None:
+                            out.append((n, b.id, 'out'))
+    return out
+
+
+def runtime_writes(mod):
+    """{module-level name: [(function qualname, node)]}: the module-level
+    objects (variables, but also functions/classes used as attribute
+    holders) that some function of the module rebinds through `global` or
+    changes in place - state that survives from one call to the next."""
+    bound = _module_bound(mod)
+    out = {}
+    for q, f in sorted(mod.functions.items()):
+        loc, outer = _fn_scope(f)
+        for node, nm, kind in _writes_in(f):
+            if kind == 'rebind':
+                if nm in outer:
+                    out.setdefault(nm, []).append((q, node))
+            elif nm not in loc and nm in bound:
+                out.setdefault(nm, []).append((q, node))
+    return out
+
+
+def _persistent_defaults(fn, fi):
+    """Parameters whose default value is an object created once, at
+    definition time, that the function changes in place."""
+    from ..core import param_default
+    out = []
+    for p in params(fn):
+        d = param_default(fn, p)
+        if d is None or isinstance(d, (ast.Constant, ast.Name, ast.Attribute, ast.UnaryOp)):
+            continue
+        if isinstance(d, ast.Tuple) and all(isinstance(e, ast.Constant) for e in d.elts):
+            continue
+        if fi._mutated_in_place(p):
+            out.append(p)
+    return out
+
+
+def _callees_closure(mod, fn):
+    """`fn` and the module-level functions of `mod` it calls by name,
+    transitively."""
+    out, work = [fn], [fn]
+    while work:
+        f = work.pop()
+        for c in calls_in(f):
+            g = mod.functions.get(c.func.id) if isinstance(c.func, ast.Name) else None
+            if g is not None and not any(g is x for x in out):
+                out.append(g)
+                work.append(g)
+    return out
+
+
+class _Table:
+    """The uses of a persistent object G in one function, read as a lookup
+    table: tests (`k in G`), reads (`G[k]`, `G.get(k)`, `G.pop(k)`), fills
+    (`G[k] = v`, `G.setdefault(k, v)`), resets (`G.clear()`, `G = ..`,
+    `del G[k]`) and uses that are none of these."""
+
+    def __init__(self):
+        self.tests, self.reads, self.fills, self.resets, self.other = [], [], [], [], []
+
+
+def _table_uses(mod, fi, G):
+    from ..core import walk_local
+    t = _Table()
+    for n in walk_local(fi.fn):
+        if not (isinstance(n, ast.Name) and n.id == G):
+            continue
+        par = mod.parent.get(n)
+        gp = mod.parent.get(par) if par is not None else None
+        st = fi.stmt(n)
+        if isinstance(n.ctx, (ast.Store, ast.Del)):
+            t.resets.append((st, None))
+        elif isinstance(par, ast.Subscript) and par.value is n:
+            if isinstance(par.ctx, ast.Load):
+                t.reads.append((par, par.slice, st))
+            elif isinstance(par.ctx, ast.Store) and isinstance(st, ast.Assign) and len(st.targets) == 1 and st.targets[0] is par:
+                t.fills.append((st, par.slice, st.value))
+            elif isinstance(par.ctx, ast.Del):
+                t.resets.append((st, par.slice))
+            else:
+                t.other.append(n)
+        elif isinstance(par, ast.Compare) and len(par.ops) == 1 and isinstance(par.ops[0], (ast.In, ast.NotIn)) and par.comparators[0] is n:
+            t.tests.append((par, par.left, st))
+        elif isinstance(par, ast.Attribute) and par.value is n and isinstance(gp, ast.Call) and gp.func is par and not gp.keywords:
+            if par.attr in ('get', 'pop') and 1 <= len(gp.args) <= 2:
+                t.reads.append((gp, gp.args[0], st))
+            elif par.attr == 'setdefault' and len(gp.args) == 2:
+                t.reads.append((gp, gp.args[0], st))
+                t.fills.append((st, gp.args[0], gp.args[1]))
+            elif par.attr == 'clear' and not gp.args:
+                t.resets.append((st, None))
+            else:
+                t.other.append(n)
+        elif isinstance(par, ast.Call) and call_name(par) == 'len' and par.args and par.args[0] is n:
+            continue            # the size of the table is not a value stored in it
+        else:
+            t.other.append(n)
+    return t
+
+
+def _identity_operands(e):
+    """The operands X of `id(X)` inside expression `e`."""
+    return [n.args[0] for n in walk_expr(e) if isinstance(n, ast.Call) and call_name(n) == 'id' and len(n.args) == 1 and not n.keywords]
+
+
+def _sole_condition(mod, cmp_node):
+    """The membership test is the whole condition of an if / while /
+    conditional expression (possibly negated): a hit is not validated by a
+    further test."""
+    p, c = mod.parent.get(cmp_node), cmp_node
+    while isinstance(p, ast.UnaryOp) and isinstance(p.op, ast.Not):
+        p, c = mod.parent.get(p), p
+    return isinstance(p, (ast.If, ast.While, ast.IfExp)) and p.test is c
+
+
+def _empties(st, G):
+    """Statement `st` leaves G empty: `G.clear()` or `G = {}` / `[]` /
+    `dict()` / `list()` / `set()` ..."""
+    if isinstance(st, ast.Expr) and isinstance(st.value, ast.Call) and isinstance(st.value.func, ast.Attribute) \
+            and st.value.func.attr == 'clear' and isinstance(st.value.func.value, ast.Name) and st.value.func.value.id == G:
+        return True
+    if isinstance(st, ast.Assign) and len(st.targets) == 1 and isinstance(st.targets[0], ast.Name) and st.targets[0].id == G:
+        v = st.value
+        if isinstance(v, (ast.Dict, ast.List, ast.Set)) and not (getattr(v, 'keys', None) or getattr(v, 'elts', None)):
+            return True
+        if isinstance(v, ast.Call) and not v.args and not v.keywords and (call_name(v) or '').split('.')[-1] in (
+                'dict', 'list', 'set', 'OrderedDict', 'defaultdict', 'deque'):
+            return True
+    return False
+
+
+def _one_entry_memo(mod, fi, names, ps):
+    """A one-entry memo spread over persistent VARIABLES (names rebound
+    through `global`): [(K, E, V, store of V, P, owner)] where
+      * a condition of the function is exactly `K == E` / `K != E` / `K is
+        [not] E` (possibly negated), E an expression that contains the
+        parameter P only inside id(P);
+      * the function rebinds K to that same E;
+      * V is another persistent variable, rebound inside that conditional to a
+        value computed from P, and read by the function."""
+    from ..core import walk_local
+    fn = fi.fn
+    out = []
+    for c in walk_local(fn):
+        if not (isinstance(c, ast.Compare) and len(c.ops) == 1 and isinstance(c.ops[0], (ast.Eq, ast.NotEq, ast.Is, ast.IsNot))):
+            continue
+        for a, b in ((c.left, c.comparators[0]), (c.comparators[0], c.left)):
+            if not (isinstance(a, ast.Name) and a.id in names):
+                continue
+            K, E = a.id, b
+            ex = fi.expand(E)
+            idents = _identity_operands(ex)
+            addr = {n.id for i in idents for n in walk_expr(i) if isinstance(n, ast.Name) and n.id in ps}
+            plain = {n.id for n in walk_expr(ex) if isinstance(n, ast.Name) and n.id in ps and not any(_inside_expr(i, n) for i in idents)}
+            only = addr - plain
+            if not only or not _sole_condition(mod, c):
+                continue
+            owner = mod.parent.get(c)
+            while isinstance(owner, ast.UnaryOp):
+                owner = mod.parent.get(owner)
+            if not isinstance(owner, ast.If):
+                continue
+            rebinds = [st for st in ast.walk(fn) if isinstance(st, ast.Assign) and len(st.targets) == 1 and isinstance(st.targets[0], ast.Name)
+                       and st.targets[0].id == K and fi.xu(st.value) == fi.xu(E)]
+            if not rebinds:
+                continue
+            for V in sorted(names - {K}):
+                read = any(isinstance(n, ast.Name) and n.id == V and isinstance(n.ctx, ast.Load) for n in walk_local(fn))
+                for st in ast.walk(owner):
+                    if isinstance(st, ast.Assign) and len(st.targets) == 1 and isinstance(st.targets[0], ast.Name) and st.targets[0].id == V and read:
+                        src = {x for x in fi.derives_from(st.value)[0] if x in only}
+                        if src:
+                            out.append((K, E, V, st, sorted(src)[0], owner))
+    return out
+
+
+def _presence_only(mod, fi, call, st):
+    """`T = G.get(k)` (default None) where every condition that mentions T
+    is the presence test `T is None` / `T is not None` / `T` itself (possibly
+    negated): the hit is not validated against anything."""
+    if not (isinstance(st, ast.Assign) and len(st.targets) == 1 and isinstance(st.targets[0], ast.Name) and st.value is call):
+        return False
+    if not (isinstance(call.func, ast.Attribute) and call.func.attr == 'get'):
+        return False
+    if len(call.args) == 2 and not (isinstance(call.args[1], ast.Constant) and call.args[1].value is None):
+        return False
+    T = st.targets[0].id
+    for n in ast.walk(fi.fn):
+        test = getattr(n, 'test', None) if isinstance(n, (ast.If, ast.While, ast.IfExp, ast.Assert)) else None
+        if test is None or not any(isinstance(x, ast.Name) and x.id == T for x in walk_expr(test)):
+            continue
+        while isinstance(test, ast.UnaryOp) and isinstance(test.op, ast.Not):
+            test = test.operand
+        if isinstance(test, ast.Name):
+            continue
+        if isinstance(test, ast.Compare) and len(test.ops) == 1 and isinstance(test.ops[0], (ast.Is, ast.IsNot, ast.Eq, ast.NotEq)) \
+                and isinstance(test.left, ast.Name) and test.left.id == T and isinstance(test.comparators[0], ast.Constant) \
+                and test.comparators[0].value is None:
+            continue
+        return False
+    return True
+
+
+def hidden_state(ck, rule, mod, fn, writes, result, example=''):
+    """Decide "`fn` returns a function of its arguments" as far as state that
+    outlives a call is concerned.  `writes` = runtime_writes(mod).
+
+    * a memoising decorator                                   -> VIOLATION
+      (array arguments are unhashable or hashed by identity);
+    * no persistent object is read or written                 -> discharged;
+    * a persistent object used as a table keyed by id(X) whose entries are
+      computed from the CONTENTS of the parameter X, hits not validated
+      against the contents                                    -> VIOLATION:
+      the address of a mutable object does not determine its contents (an
+      in-place edit keeps the address; a freed address is reused);
+    * a table whose entries are computed from a parameter that does not
+      enter the key at all                                    -> VIOLATION;
+    * a table reset unconditionally before its first use in the call holds
+      nothing of an earlier call                              -> discharged;
+    * any other use of run-time state                         -> incomplete
+      (never HOLDS: the rule cannot relate the result to the arguments)."""
+    q = mod.qualname(fn)
+    fi = finfo(mod, fn)
+    ck.analysed(mod, fn)
+    for d in getattr(fn, 'decorator_list', []) or []:
+        nm = (call_name(d) if isinstance(d, ast.Call) else u(d)) or u(d)
+        if nm.split('.')[-1] in _MEMO_DECORATORS:
+            ck.bad(rule, mod, d, q, '%s is memoised (@%s)' % (q, nm),
+                   '%s must be a function of the CONTENTS of the trajectories it is given: a memoising decorator keys the stored result on '
+                   'hash/equality of the argument objects - an ndarray is unhashable (every call raises TypeError) and a ragged/user container '
+                   'hashes by identity, so a later call on the same object with other contents gets %s of the old contents' % (q, result))
+            return False
+    loc, outer = _fn_scope(fn)
+    state = []
+    for G in sorted(writes):
+        if G in loc:
+            continue
+        if G in outer or any(isinstance(x, ast.Name) and x.id == G for x in ast.walk(fn)):
+            state.append((G, 'the module-level object `%s`' % G, writes[G]))
+    for p in _persistent_defaults(fn, fi):
+        state.append((p, 'the default object of parameter `%s` (created once, at definition time)' % p,
+                      [(q, ms) for ms in fi._mutated_in_place(p)]))
+    if not state:
+        ck.ok(rule, mod, fn, '%s: no memoisation, no module-level object written at run time, no default object changed in place' % q,
+              'the result is a function of the arguments of the call')
+        return True
+    ps = set(params(fn))
+    done = set()
+    for K, E, V, vst, P, owner in _one_entry_memo(mod, fi, {g for g, _w, _ws in state if g in outer}, ps):
+        done |= {K, V}
+        ck.bad(rule, mod, vst, q, '%s: last-value memo %s guarded by %s against %s' % (q, V, K, fi.xu(E)[:60]),
+               '%s recomputes the persistent variable `%s` (`%s`, a function of the CONTENTS of `%s`) only when `%s` differs from `%s`, '
+               'which contains `%s` only as its address id(%s), and otherwise uses the value a previous call left there.  The address '
+               'of a mutable container does not determine its contents: after an in-place edit of the same object the next call '
+               'uses the value of the OLD contents, and an array allocated at a freed address that of another data set: %s are then '
+               'those of data that were not passed in.%s' % (q, V, u(vst)[:60], P, K, fi.xu(E)[:40], P, P, result, example))
+    for G, what, ws in state:
+        if G in done:
+            continue
+        where = ', '.join(sorted({'%s at %s' % (wq, mod.loc(wn)) for wq, wn in ws}))[:160]
+        vague = ('%s uses %s, which persists between calls and is written at run time (%s); the use is not understood, so %s may '
+                 'depend on earlier calls' % (q, what, where, result))
+        t = _table_uses(mod, fi, G)
+        lookups = t.tests + t.reads
+        nested = any(isinstance(x, ast.Name) and x.id == G and not any(x is y for y in _names_local(fn)) for x in ast.walk(fn))
+        if t.other or nested or not t.fills or not lookups:
+            ck.missing(rule, vague)
+            continue
+        # a table emptied on every call before it is consulted carries nothing over
+        first = [s for _n, _k, s in lookups] + [s for s, _k, _v in t.fills]
+        hard = [s for s, k in t.resets if k is None and _empties(s, G) and all(s is not x and fi.cfg.dominates(s, x) for x in first)]
+        if hard:
+            ck.ok(rule, mod, hard[0], '%s: %s is reset (%s) before every use' % (q, G, u(hard[0])[:60]),
+                  'the table is emptied unconditionally at the start of each call: nothing of an earlier call is read')
+            continue
+        key_st, key0 = t.fills[0][0], t.fills[0][1]
+        ktext = fi.xu(key0)
+
+        def same_key(k, st):
+            if fi.xu(k) != ktext:
+                return False
+            from ..core import names_loaded
+            return all(fi.rd.defs_at(st, x) == fi.rd.defs_at(key_st, x) for x in names_loaded(fi.expand(k)))
+        if not all(same_key(k, st) for _n, k, st in lookups) or not all(same_key(k, st) for st, k, _v in t.fills):
+            ck.missing(rule, '%s uses %s as a table under several different keys (%s): %s may depend on earlier calls' % (
+                q, what, ' / '.join(sorted({fi.xu(k) for _n, k, _s in lookups} | {fi.xu(k) for _s, k, _v in t.fills}))[:160], result))
+            continue
+        key_x = fi.expand(key0)
+        key_params = {x for x in fi.derives_from(key0)[0] if x in ps}
+        need = set()
+        for _s, _k, v in t.fills:
+            need |= {x for x in fi.derives_from(v)[0] if x in ps}
+        idents = _identity_operands(key_x)
+        by_identity = set()
+        for x in idents:
+            by_identity |= {n.id for n in walk_expr(x) if isinstance(n, ast.Name) and n.id in ps}
+        # parameters that enter the key ONLY as an address
+        stripped = set()
+        for n in walk_expr(key_x):
+            if isinstance(n, ast.Name) and n.id in ps and not any(_inside_expr(i, n) for i in idents):
+                stripped.add(n.id)
+        only_address = by_identity - stripped
+        validated = [c for c, _k, _s in t.tests if not _sole_condition(mod, c)] or \
+            [r for r, _k, s in t.reads if isinstance(r, ast.Call) and not _presence_only(mod, fi, r, s)]
+        construct = '%s: table %s keyed by %s' % (q, G, ktext[:80])
+        absent = sorted(need - key_params)
+        stale = sorted(need & only_address)
+        if absent and not validated:
+            ck.bad(rule, mod, key_st, q, construct,
+                   '%s hands out entries of %s, filled by `%s`.  The stored value is computed from the parameter%s %s, which the key `%s` '
+                   'does not contain: once the table holds an entry, a later call that differs only in %s gets the value computed for the '
+                   'EARLIER arguments, so %s is no longer a function of what the call is given' % (
+                       q, what, u(key_st)[:100], 's' if len(absent) > 1 else '', ', '.join(absent), ktext[:60], ', '.join(absent), result))
+        elif stale and not validated:
+            ck.bad(rule, mod, key_st, q, construct,
+                   '%s keeps in %s a value computed from the CONTENTS of `%s` (`%s`) under a key that contains `%s` only as its '
+                   'address id(%s), and hands the stored value out on a hit without comparing contents.  The address of a mutable '
+                   'container does not determine its contents: after an in-place edit of the same object (a[a == 2] = 1, frames filled '
+                   'into a padded array) the next call finds the entry of the OLD contents, and an array allocated at a freed address '
+                   'finds the entry of another data set: %s are then those of data that were not passed in.%s' % (
+                       q, what, stale[0], u(t.fills[0][2])[:60], stale[0], stale[0], result, example))
+        else:
+            ck.missing(rule, '%s uses %s as a lookup table keyed by %s (filled at %s); whether the key determines the stored value '
+                       '(and hence %s depend on the arguments of the call only) is not decided' % (q, what, ktext[:80], mod.loc(key_st), result))
+    return False
+
+
+def _names_local(fn):
+    from ..core import walk_local
+    return [n for n in walk_local(fn) if isinstance(n, ast.Name)]
+
+
+def _inside_expr(root, node):
+    return any(x is node for x in walk_expr(root))
+
+
+def d7_hidden_state(ck):
+    """Entry (i, j) is the number of lagged pairs of the assignments that are
+    PASSED IN.  Necessary: assigns_to_counts, the helper and every function of
+    the module they call - and the methods of msm.py that call
+    assigns_to_counts - neither read nor write an object that outlives the
+    call (module-level container / `global` / function attribute / mutable
+    default / memoising decorator), except a table whose key provably
+    determines the entry.  A method that counts must also reach the counting
+    call independently of attributes a previous fit stored."""
+    rule = 'C03.D7.no-hidden-state'
+    mod = ck.repo.mod(TM)
+    writes = runtime_writes(mod)
+    n = 0
+    seen = []
+    for root in (COUNTS, HELPER):
+        for fn in _callees_closure(mod, mod.func(root)):
+            if any(fn is x for x in seen):
+                continue
+            seen.append(fn)
+            n += 1
+            hidden_state(ck, rule, mod, fn, writes, 'the transition counts (and the inferred number of states)',
+                         '  Counts of one array at several lag times are exact; two counts of one array object around an in-place edit are not.')
+    ck.floor(rule, n, 2, 'functions on the counting path of %s' % TM)
+    try:
+        m2 = ck.repo.mod(MSM_PY)
+    except Exception:
+        return
+    w2 = runtime_writes(m2)
+    for qual, fn in sorted(m2.functions.items()):
+        calls = [c for c in calls_in(fn) if (call_name(c) or '').split('.')[-1] == COUNTS]
+        if not calls:
+            continue
+        hidden_state(ck, rule, m2, fn, w2, 'the counts stored by %s' % qual)
+        ps = params(fn)
+        decos = {u(d).split('.')[-1] for d in fn.decorator_list}
+        if '.' not in qual or not ps or decos & {'staticmethod', 'classmethod'}:
+            continue
+        me, cls = ps[0], qual.rsplit('.', 1)[0]
+        fi = finfo(m2, fn)
+        fitted = set()
+        for q2, f2 in m2.functions.items():
+            if q2.rsplit('.', 1)[0] == cls and q2.rsplit('.', 1)[-1] != '__init__' and params(f2):
+                fitted |= {a for _s, a, _v in _self_attr_stores(f2, params(f2)[0])}
+        for c in calls:
+            for a in _assumes(fi, fi.stmt(c)):
+                reads = sorted({x.attr for x in walk_expr(a.test) if isinstance(x, ast.Attribute) and isinstance(x.value, ast.Name)
+                                and x.value.id == me and x.attr in fitted})
+                if reads:
+                    ck.missing(rule, '%s counts the transitions only under a condition on %s, which %s stores at run time (%s): '
+                               'the counts of a second fit may be those of the first data set' % (
+                                   qual, ', '.join('%s.%s' % (me, r) for r in reads), cls, u(a.test)[:80]))
+
+
 def check(ck):
     n = d1_slices(ck)
     ck.floor('C03.D1.slices', n or 0, 2, '(sliding / strided, return) pairs examined in %s' % HELPER)
     d_counts(ck)
     d5_settings(ck)
+    try:
+        d7_hidden_state(ck)
+    except (AttributeError, KeyError, IndexError, TypeError, ValueError, RecursionError) as e:
+        # an unforeseen shape must not hide what the other rules found, and must not pass
+        ck.missing('C03.D7.no-hidden-state', 'construct outside the shapes the rule models (%r)' % (e,))
     check_no_arg_mutation(ck, 'C03.D6.inputs-unmodified', [
         (TM, COUNTS), (TM, HELPER)])
     return EXPLANATION
